@@ -174,6 +174,16 @@ CLAIMED = {
         "Trusted: the numerical core is an oracle; bit-identity on one machine.",
         "DESIGN.md section 5 C13",
     ),
+    "C11": (
+        "Lean 4 theorems on the split and aggregation models (an extra feed row outside the baseline leaves the joined data unchanged; value functions of every aggregate level shift by exactly the unit's votes at its own key) + pair runs compared bit-for-bit",
+        "dataRows_add_unexpected / split_add_unexpected prove that the fitting, predicting and non-modelled frames are unchanged and exactly "
+        "one unexpected row is added; unexpected_adds_votes / other_groups_unchanged / groups_after_unexpected / np_bounds_shift prove that "
+        "counted votes, prediction and both bounds of exactly the attributable group move by exactly the votes, nothing at a classification "
+        "level, and a group is created if needed. Elections are run with and without 1-3 extra rows (known / unknown county, district, "
+        "state; split-precinct ids) for 3 estimators and every aggregate list; all other numbers must be bit-identical.",
+        "Trusted: numerical core as oracle; bootstrap per-draw clause observed through numerators / denominators. Known finding KF-2.",
+        "DESIGN.md section 5 C11",
+    ),
 }
 
 PENDING_REASON = "check not built yet in this session (model and correspondence in progress); not claimed until it is"
